@@ -7,8 +7,8 @@ type HarnessSpec struct {
 	Name     string
 	Pkg      string
 	Property string
-	Quick    map[string][]int
-	Thorough map[string][]int
+	Quick    []Grid
+	Thorough []Grid
 	// engine configuration
 	ConcParams  map[string][]int
 	ConcResults map[string][]int
@@ -16,6 +16,7 @@ type HarnessSpec struct {
 	Note        string // what the harness decides (goes to evidence)
 	Exhaustive  bool   // ranges over a complete finite domain
 	ExpectFail  bool   // vacuity twin: must come back violated
+	NoSummaries bool   // run the real code of summarised functions (lemma harnesses)
 }
 
 func (s *HarnessSpec) apply(c *Config) {
@@ -29,6 +30,15 @@ func (s *HarnessSpec) apply(c *Config) {
 	}
 	for k, v := range s.ConcResults {
 		c.ConcretizeResults[k] = v
+	}
+	c.ConcShrParams = map[string][][2]int{
+		// rank over a symbolic bit position: fork on the word (i>>6), keep the bit symbolic
+		"github.com/openacid/low/bitmap.Rank128": {{2, 6}},
+		"github.com/openacid/low/bitmap.Rank64":  {{2, 6}},
+	}
+	c.ConcShr = map[string][][2]int{
+		// the builder only uses the first differing *nibble* (wordStart &^ 3): fork on min>>2
+		"(*github.com/openacid/low/sigbits.SigBits).CountPrefixes": {{0, 2}},
 	}
 }
 
@@ -44,6 +54,24 @@ var defaultConcParams = map[string][]int{
 	"(*" + triePkg + ".SlimTrie).rightMost":    {1},
 }
 
+type Grid map[string][]int
+
+func (s *HarnessSpec) grids(tier string) []Grid {
+	if tier == "thorough" && s.Thorough != nil {
+		return s.Thorough
+	}
+	return s.Quick
+}
+
+// items enumerates the parameter tuples of all grids of a tier.
+func (s *HarnessSpec) tuples(tier string) []map[string]int {
+	var out []map[string]int
+	for _, g := range s.grids(tier) {
+		out = append(out, cartesian(g)...)
+	}
+	return out
+}
+
 func rng(lo, hi int) []int {
 	var r []int
 	for i := lo; i <= hi; i++ {
@@ -53,24 +81,124 @@ func rng(lo, hi int) []int {
 }
 
 func allSpecs() []*HarnessSpec {
-	return []*HarnessSpec{
+	return append(apiSpecs(), []*HarnessSpec{
 		// ---- C15 ----
 		{Name: "k_enc_int", Pkg: "encode", Property: "C15", Exhaustive: true, Witness: 1,
-			Quick:    map[string][]int{"enc": rng(0, 7), "junk": {0, 1, 2}},
-			Thorough: map[string][]int{"enc": rng(0, 7), "junk": rng(0, 4)},
+			Quick:    []Grid{{"enc": rng(0, 7), "junk": {0, 1, 2}}},
+			Thorough: []Grid{{"enc": rng(0, 7), "junk": rng(0, 4)}},
 			Note:     "integer encoders: LE layout, round trip, four sizes agree; value symbolic over the full machine width"},
 		{Name: "k_enc_str", Pkg: "encode", Property: "C15", Witness: 1,
-			Quick:    map[string][]int{"len": append(rng(0, 17), 255, 256, 257, 4095, 4096), "junk": {0, 2}},
-			Thorough: map[string][]int{"len": append(rng(0, 300), 1024, 4095, 4096, 32767, 32768, 65534, 65535), "junk": {0, 1, 2}},
+			Quick:    []Grid{{"len": append(rng(0, 17), 255, 256, 257, 4095, 4096), "junk": {0, 2}}},
+			Thorough: []Grid{{"len": append(rng(0, 300), 1024, 4095, 4096, 32767, 32768, 65534, 65535), "junk": {0, 1, 2}}},
 			Note:     "String16: BE length header, round trip, sizes; content symbolic, length enumerated"},
 		{Name: "k_enc_bytes", Pkg: "encode", Property: "C15", Witness: 1,
-			Quick:    map[string][]int{"size": rng(0, 8), "junk": {0, 2}, "dummy": {0, 1}},
-			Thorough: map[string][]int{"size": rng(0, 33), "junk": {0, 1, 2}, "dummy": {0, 1}},
+			Quick:    []Grid{{"size": rng(0, 8), "junk": {0, 2}, "dummy": {0, 1}}},
+			Thorough: []Grid{{"size": rng(0, 33), "junk": {0, 1, 2}, "dummy": {0, 1}}},
 			Note:     "Bytes{k}, Dummy: sizes and round trip"},
+		{Name: "dbg_funcs", Pkg: "trie", Property: "DBG", Witness: 1, Quick: []Grid{{"x": {0}}}},
+		{Name: "dbg_build", Pkg: "trie", Property: "DBG2", Witness: 2,
+			Quick: []Grid{{"opt": {16}, "lq": {2}}}},
 		// ---- C08 kernel ----
 		{Name: "k_encstep", Pkg: "trie", Property: "C08", Exhaustive: true, Witness: 1,
-			Quick:    map[string][]int{"limit": {0, 1}},
-			Thorough: map[string][]int{"limit": {0, 1}},
+			Quick:    []Grid{{"limit": {0, 1}}},
+			Thorough: []Grid{{"limit": {0, 1}}},
 			Note:     "decStep(encStep(s)) == s for every non-negative multiple of 4"},
+	}...)
+}
+
+// ---------- whole-API specs (l2_api / l3_api) ----------
+
+// option cases: 16 = Opt{} (defaults), 17 = only Complete set; otherwise bit0 dedup,
+// bit1 InnerPrefix, bit2 LeafPrefix, bit3 Complete.
+var (
+	optsAll      = append(rng(0, 15), 16, 17)
+	optsDistinct = []int{16, 0, 1, 2, 3, 4, 5, 8, 9, 17} // the 8 distinct normal forms + nil-defaults + Complete-only
+	optsFew      = []int{16, 9, 2, 5}
+	optsComplete = []int{8, 9, 6, 7, 17}
+	optsComplFew = []int{9, 6}
+)
+
+func pow(b, e int) int {
+	r := 1
+	for i := 0; i < e; i++ {
+		r *= b
 	}
+	return r
+}
+
+// l2Grids builds the (n, L, lens) grids shared by the L2 harnesses.
+func l2Grids(tier string, check int, opts, optsSmall, encs []int, lqs []int) []Grid {
+	var gs []Grid
+	add := func(n, L int, o, e []int) {
+		gs = append(gs, Grid{"n": {n}, "L": {L}, "lens": rng(0, pow(L+1, n)-1), "opt": o, "enc": e, "check": {check}, "lq": lqs})
+	}
+	queryCheck := len(lqs) > 1
+	addq := func(n, L int, o, e, lq []int) {
+		gs = append(gs, Grid{"n": {n}, "L": {L}, "lens": rng(0, pow(L+1, n)-1), "opt": o, "enc": e, "check": {check}, "lq": lq})
+	}
+	switch {
+	case tier == "quick" && queryCheck:
+		add(0, 2, opts, encs)
+		add(1, 2, opts, encs)
+		addq(2, 2, optsSmall, encs[:1], []int{1, 3})
+		if len(encs) > 1 {
+			addq(2, 2, optsSmall[:1], encs[1:], []int{2})
+		}
+		addq(3, 1, optsSmall[:2], encs[:1], []int{2})
+	case tier == "quick":
+		add(0, 2, opts, encs)
+		add(1, 2, opts, encs)
+		add(2, 2, opts, encs)
+		add(3, 1, optsSmall, encs[:1])
+	default:
+		add(0, 3, opts, encs)
+		add(1, 3, opts, encs)
+		add(2, 3, opts, encs)
+		add(3, 2, opts, encs)
+		add(4, 1, optsSmall, encs[:1])
+	}
+	return gs
+}
+
+func l3Grid(check int, skels, opts, encs, runs, lqs []int) Grid {
+	return Grid{"skel": skels, "opt": opts, "enc": encs, "runs": runs, "check": {check}, "lq": lqs}
+}
+
+func apiSpecs() []*HarnessSpec {
+	var out []*HarnessSpec
+	type pd struct {
+		prop        string
+		check       int
+		opts, small []int
+		encs        []int
+		lqQ, lqT    []int
+		note        string
+	}
+	for _, p := range []pd{
+		{"C01", 1, optsDistinct, optsFew, []int{1, 0, 2}, []int{0}, []int{0}, "Get/GetID on every retained key returns its own value (all option cases, nil/U16/String16 values)"},
+		{"C02", 2, optsDistinct, optsFew, []int{1, 2}, []int{0}, []int{0}, "RangeGet on every indexed key (retained or de-duplicated) returns the value supplied for it"},
+		{"C03", 3, optsComplete, optsComplFew, []int{1, 0, 2}, []int{0, 1, 2, 3}, []int{0, 1, 2, 3, 4}, "Complete tries answer Get/GetID/RangeGet/Search exactly for an arbitrary symbolic query"},
+		{"C09", 9, optsDistinct, optsFew, []int{1, 2}, []int{0}, []int{0}, "Search on a retained key returns its exact neighbours in every mode"},
+		{"C10", 10, optsDistinct, optsFew, []int{1, 0, 2}, []int{0, 1, 2, 3}, []int{0, 1, 2, 3, 4}, "all lookups total and mutually consistent for an arbitrary symbolic query; hits carry supplied values"},
+		{"C14", 14, optsDistinct, optsFew, []int{3, 4, 5, 6}, []int{0, 1, 2}, []int{0, 1, 2, 3}, "GetI8/16/32/64 agree with Get (flag and number), values over the full integer range"},
+		{"C18", 18, optsDistinct, optsFew, []int{1, 0, 2}, []int{0}, []int{0}, "Stat: KeyCnt = number of retained keys, level totals consistent"},
+	} {
+		p := p
+		out = append(out, &HarnessSpec{Name: "l2_api", Pkg: "trie", Property: p.prop, Witness: 1,
+			Quick:    l2Grids("quick", p.check, p.opts, p.small, p.encs, p.lqQ),
+			Thorough: l2Grids("thorough", p.check, p.opts, p.small, p.encs, p.lqT),
+			Note:     "L2 (fully symbolic key sets): " + p.note})
+		skQ, skT := []int{0, 1, 2, 3, 4}, []int{0, 1, 2, 3, 4}
+		enc3 := p.encs[:1]
+		lq3Q, lq3T := p.lqQ, p.lqT
+		if len(lq3Q) > 1 {
+			lq3Q = []int{1, 3}
+			lq3T = []int{0, 1, 2, 3, 4, 5}
+		}
+		out = append(out, &HarnessSpec{Name: "l3_api", Pkg: "trie", Property: p.prop, Witness: 1,
+			Quick:    []Grid{l3Grid(p.check, skQ, p.small[:2], enc3, []int{0, 2}, lq3Q)},
+			Thorough: []Grid{l3Grid(p.check, skT, p.opts, p.encs, []int{0, 1, 2, 3}, lq3T)},
+			Note:     "L3 (concrete skeleton key sets, symbolic query): " + p.note})
+	}
+	return out
 }
